@@ -4,7 +4,7 @@ use drv::*;
 
 const OPS: &[&str] = &[
     "signum", "npow2", "neg", "abs", "add", "sub", "mul", "div", "mul_int", "div_int", "add_r", "sub_r", "mul_r",
-    "div_r", "mul_int_r", "div_int_r",
+    "div_r", "mul_int_r", "div_int_r", "signum_t", "npow2_t", "abs_t",
 ];
 
 fn do_op<F: Ext>(ev: &mut Ev, lay: Lay, op: &str, a: u128, b: u128)
@@ -41,6 +41,22 @@ where
             ev.rec_s(&mut || tbs(x.x_checked_next_power_of_two()));
             ev.rec_v(&mut || tb(x.x_next_power_of_two()));
             ev.rec_b(&mut || x.x_is_power_of_two());
+        }
+        // the FixedSigned / FixedUnsigned trait route (same token layout as the inherent route)
+        "signum_t" => {
+            ev.rec_v(&mut || tb(x.t_signum()));
+        }
+        "npow2_t" => {
+            ev.rec_s(&mut || tbs(x.t_checked_next_power_of_two()));
+            ev.rec_v(&mut || tb(x.t_next_power_of_two()));
+            ev.rec_b(&mut || x.t_is_power_of_two());
+        }
+        "abs_t" => {
+            ev.rec_s(&mut || tbs(x.t_checked_abs()));
+            ev.rec_v(&mut || tb(x.t_saturating_abs()));
+            ev.rec_v(&mut || tb(x.t_wrapping_abs()));
+            ev.rec_o(&mut || tbo(x.t_overflowing_abs()));
+            ev.rec_v(&mut || tb(x.t_abs()));
         }
         "abs" => {
             ev.rec_s(&mut || tbs(x.x_checked_abs()));
@@ -296,6 +312,17 @@ where
             })
             .collect();
         fold_ev::<F>(ev, lay, &xs);
+    }
+    // abs family / signum / next_power_of_two through the FixedSigned / FixedUnsigned trait impls (separate PRNG stream)
+    let mut rng4 = args.rng_for(lay, 104);
+    for _ in 0..(args.n / 4).max(8) {
+        let a = gen_bits(&mut rng4, lay);
+        if F::IS_SIGNED {
+            do_op::<F>(ev, lay, "abs_t", a, 0);
+            do_op::<F>(ev, lay, "signum_t", a, 0);
+        } else {
+            do_op::<F>(ev, lay, "npow2_t", a, 0);
+        }
     }
 }
 
